@@ -38,6 +38,29 @@ mod verif_standins {
             }
         }
     }
+    /// the documented patterns inside ONE proof: equal slots (same value, same commitment scalar) give equal responses and the
+    /// proof still verifies; messages with small-negative, word-boundary and high-byte entries verify
+    fn check_patterns<const N: usize>() {
+        let mut rng = rng();
+        let params = PedersenParameters::<G1Projective, N>::new(&mut rng);
+        let two63 = Scalar::from(1u64 << 63);
+        let vals = [Scalar::from(7), -Scalar::one(), -Scalar::from(255), two63, Scalar::from(u64::MAX), Scalar::from_raw([1000, 0, 0, 0x2a << 56]), Scalar::zero()];
+        for v in vals {
+            let mut m = [Scalar::from(3); N];
+            m[0] = v; m[N - 1] = v;
+            let s = Scalar::from(11);
+            let mut given = [None; N];
+            given[0] = Some(s); given[N - 1] = Some(s);
+            let b = CommitmentProofBuilder::generate_proof_commitments(&mut rng, Message::new(m), &given, &params);
+            let c = ChallengeBuilder::new().with(&b).finish();
+            let p = b.generate_proof_response(c);
+            assert!(p.conjunction_response_scalars()[0] == p.conjunction_response_scalars()[N - 1], "STANDIN cproof: equal slots under the same commitment scalar gave different responses");
+            assert!(p.verify_knowledge_of_opening(&params, c), "STANDIN cproof.verify_knowledge_of_opening: honest proof with two equal response scalars / entry {:?} rejected, N={}", v, N);
+            assert_eq!(p.verify_knowledge_of_opening(&params, c), reference(&p, &params, c.to_scalar()));
+        }
+    }
+    #[test] fn standin_cproof_patterns() { check_patterns::<2>(); check_patterns::<3>(); check_patterns::<5>(); }
+
     fn challenge_from(c: Scalar) -> Challenge { unsafe { core::mem::transmute::<Scalar, Challenge>(c) } }
     #[test] fn standin_cproof_verify() { check::<1>(); check::<2>(); check::<5>(); }
 }
